@@ -135,7 +135,8 @@ twin("regex_fullmatch_form", "non-capturing group kept, anchors \\\\A ... \\\\Z"
 
 sys.path.insert(0, HERE)
 from twins_extra import EXTRA  # noqa: E402
-for _n, _w, _e in EXTRA:
+from twins_round3 import ROUND3  # noqa: E402
+for _n, _w, _e in EXTRA + ROUND3:
     twin(_n, _w, _e)
 
 
